@@ -19,11 +19,16 @@ for ln in (V / "seeded" / "last_run.jsonl").read_text().splitlines():
     notes = (sd / "notes.md").read_text() if (sd / "notes.md").exists() else ""
     head = next((x.strip("# ").strip() for x in notes.splitlines() if x.strip()), "")
     head = re.sub(r"^C\d\d\s*[/ ]\s*m\d\s*[-—:]*\s*", "", head)
-    chk = next((v for k, v in d.items() if k.startswith("check_")), {})
-    viol = chk.get("violations", [])
     how = "missed"
-    if chk.get("rc") == 1:
-        how = "failing input (search)" if any("no-failing-input-found" not in v for v in viol) else "proof obligation / correspondence broke (no failing input found)"
+    hits = []
+    for k, chk in d.items():
+        if not k.startswith("check_") or chk.get("rc") != 1:
+            continue
+        viol = chk.get("violations", [])
+        hits.append((k[6:], "failing input (search)" if any("no-failing-input-found" not in v for v in viol) else "proof obligation / correspondence broke (no failing input found)"))
+    if hits:
+        own = [h for h in hits if h[0] == d["property"]]
+        how = own[0][1] if own else "not by its own check (see notes); " + ", ".join(f"{p}: {h}" for p, h in hits)
     rows.append((sid, d["property"], ", ".join(files), head[:150], how))
 out = ["# Seeded changes and what caught them", "",
        "Each change compiles, keeps the existing test suite green (2000 passed, 8 xfailed, 2 xpassed) and makes the property false on some",
